@@ -2191,7 +2191,7 @@ impl Value {
 impl<T: ArrayValue> Array<T> {
     pub(crate) fn first_min_index(&self, env: &Uiua) -> UiuaResult<f64> {
         let fill = env.ctx().scalar_fill::<f64>();
-        if self.rank() == 0 || self.meta.is_sorted_up() && fill.is_err() {
+        if self.rank() == 0 || self.row_count() > 0 && self.meta.is_sorted_up() && fill.is_err() {
             return Ok(0.0);
         }
         if self.row_count() == 0 {
@@ -2246,8 +2246,11 @@ impl<T: ArrayValue> Array<T> {
     }
     pub(crate) fn last_max_index(&self, env: &Uiua) -> UiuaResult<f64> {
         let fill = env.ctx().scalar_fill::<f64>();
-        if self.rank() == 0 || self.meta.is_sorted_up() && fill.is_err() {
+        if self.rank() == 0 {
             return Ok(0.0);
+        }
+        if self.row_count() > 0 && self.meta.is_sorted_up() && fill.is_err() {
+            return Ok((self.row_count() - 1) as f64);
         }
         if self.row_count() == 0 {
             return fill
